@@ -8,7 +8,8 @@
    Json/JsonEncModel.v (Encoder). *)
 From Coq Require Import List NArith ZArith.
 From PB Require Import Base.PBytes Json.JsonUtf8 Json.JsonGrammar Json.JsonNumModel Json.JsonNumP
-  Json.JsonLexModel Json.JsonStrP Json.JsonLexP Json.JsonEncModel Json.JsonEncP.
+  Json.JsonLexModel Json.JsonStrP Json.JsonLexP Json.JsonEncModel Json.JsonEncP Json.JsonEncSpec
+  Json.JsonEncGrammarP.
 Import ListNotations.
 
 (* If reading tokens to EOF succeeds (and at least one token was read) the input is a JSON
@@ -68,6 +69,31 @@ Theorem C21_string_escape_roundtrip :
 Proof. exact string_escape_roundtrip. Qed.
 Print Assumptions C21_string_escape_roundtrip.
 
+(* Every tree written through the Encoder calls (WriteNull/Bool/String/Int/Uint, StartObject/
+   WriteName/EndObject, StartArray/EndArray in the balanced order [calls_of_tree]) renders a
+   JSON text, for every indent made of spaces/tabs and every detrand stream.  [tree_ok] says
+   that all strings and names are valid UTF-8 (WriteString/WriteName succeed). *)
+Theorem C21_encoder_emits_json :
+  forall rnd indent t, indent_ok indent = true -> tree_ok t ->
+    exists out, render rnd indent t = (out, true) /\ json_text out.
+Proof. exact encoder_emits_json. Qed.
+Print Assumptions C21_encoder_emits_json.
+
+(* Indent and detrand only change insignificant whitespace: after deleting the whitespace
+   outside string literals ([squeeze SqOut], Json/JsonEncSpec.v) every rendering equals the
+   canonical compact rendering [compact t].
+   _partial: "parses to the same value" is stated through RFC 8259 section 2 (whitespace
+   around structural characters is insignificant); that the Decoder model yields the same
+   token sequence for [s] and [squeeze SqOut s] on JSON texts is not proved here (the harness
+   checks it on the implementation with encoding/json and with the Decoder itself). *)
+Theorem C21_indent_invariant_partial :
+  forall rnd1 rnd2 indent1 indent2 t,
+    indent_ok indent1 = true -> indent_ok indent2 = true -> tree_ok t ->
+    squeeze SqOut (fst (render rnd1 indent1 t)) = squeeze SqOut (fst (render rnd2 indent2 t)) /\
+    squeeze SqOut (fst (render rnd1 indent1 t)) = compact t.
+Proof. exact indent_invariant. Qed.
+Print Assumptions C21_indent_invariant_partial.
+
 (* Read's recursion after a comma is at most one level deep (justifies the shape of [read]) *)
 Theorem C21_read_step_after_comma :
   forall st tok st', d_last st = KComma -> read_step st = Ok (tok, st') -> t_kind tok <> KComma.
@@ -81,6 +107,13 @@ Proof. vm_compute. split; reflexivity. Qed.
 Example C21_ex_F2_rejected :
   snd (read_all ["["; "1"; "e"; ","; "2"; "]"]%byte) <> None /\ parse_number ["1"; "e"; ","]%byte = None.
 Proof. vm_compute. split; [discriminate|reflexivity]. Qed.
+Definition C21_tree : jtree :=
+  TObj [(["a"]%byte, TArr [TInt 1; TStr [x22; " "]%byte; TNull]); (["b"]%byte, TObj [])].
+Example C21_ex_render :
+  tree_ok C21_tree /\
+  fst (render (fun _ => true) [" "; " "]%byte C21_tree) <> fst (render (fun _ => false) [] C21_tree) /\
+  squeeze SqOut (fst (render (fun _ => true) [" "; " "]%byte C21_tree)) = fst (render (fun _ => false) [] C21_tree).
+Proof. vm_compute. repeat split; auto; discriminate. Qed.
 Example C21_ex_escape :
   append_string [x22; x0a; x01; "a"]%byte = ([x22; x5c; x22; x5c; "n"; x5c; "u"; "0"; "0"; "0"; "1"; "a"; x22]%byte, true).
 Proof. vm_compute. reflexivity. Qed.
